@@ -159,12 +159,12 @@ def dress(struct, date, rnd, pid_base=0, hh_base=0, pid_map=None, profile=None):
             d["p_id_kindergeld_empf"] = pid[parents[0]]
         # some adults below retirement age have a reduced earning capacity and draw the pension for it (otherwise the rules of
         # the Erwerbsminderungsrente would only ever be evaluated on their zero branch)
-        if adult and a < 63 and rnd.random() < 0.1:
+        if a >= 23 and a < 63 and rnd.random() < 0.1:
             d["voll_erwerbsgemind"] = rnd.random() < 0.6
             d["teilw_erwerbsgemind"] = not d["voll_erwerbsgemind"]
             d["rentner"] = True
-            d["jahr_renteneintr"] = year - rnd.choice([0, 1, 5])
-            d["m_pflichtbeitrag"] = max(d["m_pflichtbeitrag"], rnd.choice([12.0, 36.0, 120.0]))
+            d["jahr_renteneintr"] = year - rnd.choice([k_ for k_ in (0, 1, 5) if a - k_ >= 22])     # the pension started at 22 or later
+            d["m_pflichtbeitrag"] = max(d["m_pflichtbeitrag"], rnd.choice([12.0, 36.0, min(120.0, (a - 17) * 12.0)]))
         for k, v in profile.items():
             d[k] = v(i, r, d, rnd) if callable(v) else v
         P.append(d)
